@@ -214,7 +214,7 @@ func runCase(c bufioCase) obs {
 	br := bufio.NewReaderSize(sr, c.Size)
 	var o obs
 	finals := 0
-	limit := len(expandSegs(c.Bytes)) + len(sr.chunks) + 16
+	limit := len(expandSegs(c.Bytes)) + len(sr.last) + len(sr.chunks) + 16 // every call takes a byte or 100 empty chunks, or is a final one
 	for k := 0; k < limit; k++ {
 		s, err := br.ReadString(byte(c.Delim))
 		cl := classify(err)
